@@ -45,7 +45,7 @@ Init0 ==
    pend1 |-> <<>>, pend2 |-> <<>>, awaitResend |-> FALSE, last1 |-> -1, last2 |-> -1, unkPartial |-> FALSE,
    inb |-> <<>>, inbId |-> <<>>, held |-> {}, owedAcks |-> <<>>, marks |-> {}, damaged |-> {}, diverged |-> FALSE,
    lastFail |-> FALSE, nstops |-> 0, closedEarly |-> FALSE, closeCalled |-> FALSE, altered |-> {}, sent0 |-> {},
-   frame |-> FALSE, sentSeq |-> <<>>, retSeq |-> <<>>, bigPending |-> -1,
+   frame |-> FALSE, nopause |-> FALSE, sentSeq |-> <<>>, retSeq |-> <<>>, bigPending |-> -1,
    garbled |-> FALSE, relDone |-> {}, ambig |-> {}, attemptOpen |-> FALSE, down |-> "no", downSure |-> FALSE, lwGot |-> <<>>, stalls |-> <<>>]
 
 (* ---------------------------------------------------------------------- *)
@@ -482,6 +482,10 @@ OnRet(m, e) ==
                    /\ m.inb[id].ownedGen = m.gen /\ m.inb[id].acks = 0
     IN R(m1, If(again, "C04_OncePerCycle") \cup If(unacked, "C07_AckBeforeRedelivery")
              \cup If(cl.afterClose /\ ~isClosed, "C12_ErrClosedAfter")
+             \* a protocol-violation error with nothing but a valid accepting CONNACK read on the connection: the
+             \* CONNACK itself was turned down
+             \cup If("proto" \in cls /\ ~m.hostile /\ m.cur # 0 /\ Has(m.conns, m.cur) /\ m.conns[m.cur].connack = "ok"
+                      /\ m.conns[m.cur].nread = 1, "C18_AcceptingConnackEstablishes")
              \cup If(got /\ id = 0 /\ e.tag \notin m.sent0 /\ ~m.hostile /\ ~m.frame, "C06_ReturnedEqualsSent")
              \* a BigMessage whose Size matches no message the broker sent
              \cup If("big" \in cls /\ e.tag = 0 /\ ~m.hostile /\ ~m.frame, "C06_ReturnedEqualsSent"))
@@ -563,14 +567,14 @@ OnFinal(m, e) ==
 (* means it found "pending" (C18).                                                               *)
 OnGate(m, e) ==
   IF e.site = "lw.got" THEN R([m EXCEPT !.lwGot = Put(@, e.p, [sure |-> m.downSure, down |-> m.down])], {})
-  ELSE IF e.k = "read" /\ e.mid /\ ~e.armed THEN R(m, {"C13_BoundedWait"})
+  ELSE IF e.k = "read" /\ e.mid /\ ~e.armed THEN R(m, If(~m.nopause, "C13_BoundedWait"))
   ELSE IF e.site = "lw.wait" THEN R(m, If(Has(m.lwGot, e.p) /\ m.lwGot[e.p].sure /\ m.downSure, "C18_WaitThenDown"))
   ELSE R(m, {})
 
 ObsStep(m, e) ==
   CASE e.e = "begin" -> R([Init0 EXCEPT !.gen = 1, !.amax = IF e.amax < 0 \/ e.amax > IdMod THEN IdMod ELSE e.amax,
                                        !.emax = IF e.emax < 0 \/ e.emax > IdMod THEN IdMod ELSE e.emax, !.clean = e.clean,
-                                       !.frame = e.frame], {})
+                                       !.frame = e.frame, !.nopause = e.nopause], {})
     [] e.e = "snap" -> R(m, IF m.phase = "epi" /\ ~m.closedEarly /\ m.damaged = {} /\ ~m.hostile
                                   /\ (e.q1 # Len(Pending(m, 1)) \/ e.q2 # Len(Pending(m, 2)))
                                THEN {"C17_QueueMatchesPending"} \cup If(m.refused # {}, "C14_PersistErrorNotEnqueued") ELSE {})
@@ -601,7 +605,8 @@ ObsStep(m, e) ==
                                       /\ (\E t \in DOMAIN m.msgs : m.msgs[t].level = 2 /\ m.msgs[t].relSaved /\ ~m.msgs[t].deleted),
                                       "C03_RelUntilComp"))
     [] e.e = "panic" -> R(m, {"C13_NoPanic"})
-    [] e.e = "nodeadline" -> R(m, {"C13_BoundedWait"})
+    \* (PauseTimeout zero switches the bound off: the Config says so)
+    [] e.e = "nodeadline" -> R(m, If(~m.nopause, "C13_BoundedWait"))
     [] e.e = "harness-panic" -> R(m, {"Harness_Panic"})
     \* a record of an earlier incarnation that had got as far as the PUBREC: the broker forwarded that message then
     [] e.e = "seedrec" -> IF Has(m.msgs, e.tag) THEN R([m EXCEPT !.msgs[e.tag].rec = TRUE, !.msgs[e.tag].deliv = 1], {}) ELSE R(m, {})
